@@ -485,7 +485,16 @@ func c20Run(s *sim.Sim, p *sim.Params) {
 		st := c20state{}
 		afterPanic := false
 		nops := 5 + s.Choose(sim.SWork, 56)
+		closeAt := -1
+		if s.Choose(sim.SWork, 6) == 0 {
+			closeAt = s.Choose(sim.SWork, nops) // Close stops the janitor; the cache stays usable, expiry included
+		}
 		for i := 0; i < nops; i++ {
+			if i == closeAt {
+				c.Close()
+				s.Probe("closed-mid-history")
+				sample = append(sample, "Close()")
+			}
 			if regime >= 2 && s.Choose(sim.SWork, 3) == 0 {
 				d := []time.Duration{time.Millisecond, 40 * time.Millisecond, 60 * time.Millisecond, time.Second, 61 * time.Second, 5 * time.Minute}[s.Choose(sim.SWork, 6)]
 				s.Sleep(d)
